@@ -342,11 +342,25 @@ def run_path(E, contract, fn, res):
     for c in cases:
         cover = ops.s_or(cover, c.when if isinstance(c.when, (bool, SBool)) else ops.truth(c.when))
     E.prove("%s/cases-exhaustive" % short, cover, kind="contract")
-    matched = 0
-    for c in cases:
+    # The outcome of this path must be allowed: some case of the same kind (returns / raises a super-class of what
+    # was raised) has a guard that holds.  Cases of the other kind may overlap ("may raise") and are not consulted.
+    kind, val = outcome
+
+    def compatible(c):
+        if kind == "return":
+            return c.raises is None
+        return c.raises is not None and E.exc_matches(val, c.raises)
+    comp = [c for c in cases if compatible(c)]
+    allowed = False
+    for c in comp:
+        allowed = ops.s_or(allowed, c.when if isinstance(c.when, (bool, SBool)) else ops.truth(c.when))
+    what = "returns" if kind == "return" else "raises-%s" % _cname(val.cls)
+    E.prove("%s/outcome-allowed" % short, allowed, kind="contract",
+            detail="the call %s %r where no case of the contract allows it (%s)"
+                   % ("returned" if kind == "return" else "raised", val, what))
+    for c in comp:
         if not E.feasible(c.when):
             continue
-        matched += 1
         res.case_cover[c.name] = res.case_cover.get(c.name, 0) + 1
         E.solver.push()
         nfacts = len(E.facts)
@@ -356,8 +370,6 @@ def run_path(E, contract, fn, res):
         finally:
             del E.facts[nfacts:]
             E.solver.pop()
-    if matched == 0:
-        E.prove("%s/some-case-applies" % short, False, kind="contract")
 
 
 def check_case(E, short, c, ctx, outcome):
